@@ -72,6 +72,8 @@ fn malformed(fields: &mut Vec<Field>, which: u8, request: bool) {
             // missing :method / :status
             fields.remove(0);
         }
+        5 => fields.push(f("", "value")), // a field line with a zero-length name: valid QPACK, malformed message
+        6 => fields.push(f("x-sp ace", "1")),
         _ => {
             if request {
                 fields.push(f("host", "contradicting.example"))
@@ -129,7 +131,7 @@ fn gen_fault(request: bool) -> Fault {
     match draw(if request { 6 } else { 5 }) {
         0 => Fault::Reset(*pick(&[0x10cu64, 0x0, 0x100, 0x10b, 77]), 0),
         1 => Fault::Stop(*pick(&[0x10cu64, 0x0, 0x100, 99])),
-        2 => Fault::Malformed(draw(5) as u8),
+        2 => Fault::Malformed(draw(7) as u8),
         3 => Fault::Oversized,
         4 => Fault::Reset(*pick(&[0x10cu64, 0x1]), 1),
         _ => Fault::FinFirst,
@@ -601,7 +603,7 @@ impl Check for C07 {
     fn meta(&self) -> Meta {
         Meta {
             level: "exploration",
-            rule: "2-4 concurrent requests between the real endpoint under test (server role or client role) and a reference peer; a drawn subset (possibly empty, possibly all) suffers exactly one stream-scoped fault: RESET(any code) at a drawn byte offset of the peer's sending side incl. just past the last byte (RESET instead of FIN), STOP_SENDING(any code) against h3's sending side at a drawn script position, a validly encoded but malformed message (upper-case name, bad value byte, unknown pseudo-header, missing :method/:status, contradictory authority), a field section one over the limit, FIN before HEADERS (server role); the others carry generated messages that are echoed; what the application does with a faulty handle afterwards (drop, finish, retry a send) is drawn; all interleavings of request tasks, deliveries and the fault are drawn; non-trivial = at least one fault and one healthy request and >= 2 chunk deliveries; distinct = distinct schedule signatures",
+            rule: "2-4 concurrent requests between the real endpoint under test (server role or client role) and a reference peer; a drawn subset (possibly empty, possibly all) suffers exactly one stream-scoped fault: RESET(any code) at a drawn byte offset of the peer's sending side incl. just past the last byte (RESET instead of FIN), STOP_SENDING(any code) against h3's sending side at a drawn script position, a validly encoded but malformed message (upper-case name, bad value byte, unknown pseudo-header, missing :method/:status, contradictory authority, empty field name, blank in a name), a field section one over the limit, FIN before HEADERS (server role); the others carry generated messages that are echoed; what the application does with a faulty handle afterwards (drop, finish, retry a send) is drawn; all interleavings of request tasks, deliveries and the fault are drawn; non-trivial = at least one fault and one healthy request and >= 2 chunk deliveries; distinct = distinct schedule signatures",
             real: &["h3 server (Connection, RequestResolver, RequestStream) / h3 client (Connection driver, SendRequest, split RequestStream halves)", "h3 connection/frame/stream/qpack/proto modules, error propagation"],
             stub: &["QUIC transport (SimQuic)", "executor (simexec)", "reference peer (script + reference codecs, reads h3's output from the wire log)", "applications (echo server / concurrent client requests)"],
             assumptions: &["client role: the wire codes of stop_sending after a malformed/oversized response are not judged", "a STOP_SENDING that arrives after h3 finished sending legitimately goes unnoticed"],
